@@ -119,9 +119,11 @@ class Vals:
                     else:
                         self.defs.setdefault(pl["l"], []).append(("stmt", bi, si, s["rv"]))
                     rv = s["rv"]
-                    if rv["k"] == "ref" and rv["mut"]:
+                    # a reborrow `&mut (*p)` does not make the pointer local itself mutable state
+                    reborrow = any(e["k"] == "deref" for e in rv.get("place", {}).get("p", []))
+                    if rv["k"] == "ref" and rv["mut"] and not reborrow:
                         self.mut_borrowed.add(rv["place"]["l"])
-                    if rv["k"] == "rawptr":
+                    if rv["k"] == "rawptr" and not reborrow:
                         self.mut_borrowed.add(rv["place"]["l"])
                 elif s["k"] == "setdiscr":
                     self.partial.setdefault(s["place"]["l"], []).append((bi, si))
